@@ -213,6 +213,17 @@ func ruleSaveNeverDeclines(ctx *Ctx, r *Report) {
 // error value is left out).
 func goodSuccs(b *ssa.BasicBlock) []*ssa.BasicBlock {
 	succs := b.Succs
+	if iff, ok := b.Instrs[len(b.Instrs)-1].(*ssa.If); ok && len(succs) == 2 {
+		// `if failed(err) {`: a module helper that reports and tells whether its error argument is set
+		if c, isCall := iff.Cond.(*ssa.Call); isCall {
+			if g := c.Call.StaticCallee(); g != nil && inModule(g) && len(g.Blocks) > 0 && len(c.Call.Args) == 1 && isErrorType(c.Call.Args[0].Type()) && errorSetPredicate(g) {
+				fake := &ssa.BinOp{Op: token.NEQ, X: c.Call.Args[0], Y: ssa.NewConst(nil, c.Call.Args[0].Type())}
+				if isIOError(fake) {
+					return succs[1:]
+				}
+			}
+		}
+	}
 	if iff, ok := b.Instrs[len(b.Instrs)-1].(*ssa.If); ok && len(succs) == 2 && isErrorCond(iff.Cond) && isIOError(iff.Cond) {
 		switch iff.Cond.(*ssa.BinOp).Op {
 		case token.NEQ:
@@ -1297,6 +1308,49 @@ func sliceFromGlobal(v ssa.Value, depth int) bool {
 		}
 	}
 	return false
+}
+
+// errorSetPredicate: g(err error) bool returns true exactly when err != nil (it may print on the
+// way): every return yields `err != nil`, or a constant that agrees with a dominating test of err.
+func errorSetPredicate(g *ssa.Function) bool {
+	if len(g.Params) != 1 || g.Signature.Results().Len() != 1 {
+		return false
+	}
+	ok, n := true, 0
+	allInstrs(g, func(b *ssa.BasicBlock, ins ssa.Instruction) {
+		ret, isRet := ins.(*ssa.Return)
+		if !isRet {
+			return
+		}
+		n++
+		switch v := ret.Results[0].(type) {
+		case *ssa.BinOp:
+			if !(v.Op == token.NEQ && (v.X == ssa.Value(g.Params[0]) || v.Y == ssa.Value(g.Params[0]))) {
+				ok = false
+			}
+		case *ssa.Const:
+			if v.Value == nil || v.Value.Kind() != constant.Bool {
+				ok = false
+				return
+			}
+			want := constant.BoolVal(v.Value)
+			agrees := false
+			for _, gd := range branchGuards(b) {
+				if bo, isB := gd.cond.(*ssa.BinOp); isB && (bo.X == ssa.Value(g.Params[0]) || bo.Y == ssa.Value(g.Params[0])) {
+					set := (bo.Op == token.NEQ) == gd.val
+					if bo.Op == token.NEQ || bo.Op == token.EQL {
+						agrees = set == want
+					}
+				}
+			}
+			if !agrees {
+				ok = false
+			}
+		default:
+			ok = false
+		}
+	})
+	return ok && n > 0
 }
 
 // isIOError: the error tested by cond comes from input/output (or from a module function, which
